@@ -1,7 +1,7 @@
 (* C06 (anti-aliased hairline): theorems about the bit-exact model Model/HairlineAA.v, which the hair_aa correspondence ties to
    src/scan/hairline_aa.rs contribution by contribution and whose integer helpers are regenerated from the source. *)
 From Coq Require Import ZArith List.
-From TS Require Import Base.Checked Model.HairlineAA Proofs.HairlineAAProofs.
+From TS Require Import Base.Checked Model.HairlineAA Proofs.HairlineAAProofs Proofs.HairlineAAUnclipped.
 Import ListNotations.
 Local Open Scope Z_scope.
 
@@ -51,6 +51,19 @@ Theorem C06_aa_clipped_route_inside_clip :
   do_anti_hairline fuel x0 y0 x1 y1 (Some (cl, ct, cr, cb)) = Some out ->
   forall x y a, In (x, y, a) out -> cl <= x < cr /\ ct <= y < cb /\ 0 < a.
 Proof. exact do_anti_hairline_clipped_inside. Qed.
+
+(* THE statement for the route WITHOUT any clipping blitter (taken when the integer rectangle
+   ir = [floor(min x) - 1, ceil(max x) + 1) x [floor(min y) - 1, ceil(max y) + 1) of the segment is inside the pixmap): every
+   pixel of an unsubdivided segment lies inside ir.  The accumulator is extrapolated to the centres of the end columns (up to
+   31/64 px beyond the end points) with a truncated slope; the proof shows that it stays below the next integer row with
+   1/64 px to spare (Proofs/HairlineAAUnclipped.v, accumulator_bounds) *)
+Theorem C06_aa_unclipped_route_inside_bounds :
+  forall x0 y0 x1 y1 out,
+  anti_hairline_short x0 y0 x1 y1 None = Some out ->
+  64 <= Z.min x0 x1 -> 64 <= Z.min y0 y1 ->
+  forall x y a, In (x, y, a) out ->
+    Z.min x0 x1 / 64 - 1 <= x < (Z.max x0 x1 + 63) / 64 + 1 /\ Z.min y0 y1 / 64 - 1 <= y < (Z.max y0 y1 + 63) / 64 + 1 /\ 0 < a.
+Proof. exact short_unclipped_inside_ir. Qed.
 
 (* the known finding C06-aa-hairline-top-left-fold as a theorem about the model: when the segment starts above the pixmap the
    accumulator is clamped to 0 and the REST of the segment leaves its ideal rows (witness: slope 1/2 from y = -1.25; column 5 is
